@@ -89,15 +89,21 @@ WOPNFile *WOPN_Init(uint16_t melodic_banks, uint16_t percussive_banks)
     file->banks_count_melodic = (melodic_banks != 0) ? melodic_banks : 1;
     file->banks_melodic = (WOPNBank*)calloc(file->banks_count_melodic, sizeof(WOPNBank));
 
+    file->banks_count_percussion = (percussive_banks != 0) ? percussive_banks : 1;
+    file->banks_percussive = (WOPNBank*)calloc(file->banks_count_percussion, sizeof(WOPNBank));
+
+    if(!file->banks_melodic || !file->banks_percussive)
+    {
+        WOPN_Free(file);
+        return NULL;
+    }
+
     if(melodic_banks == 0)
     {
         unsigned i;
         for(i = 0; i < 128; ++i)
             file->banks_melodic[0].ins[i].inst_flags = WOPN_Ins_IsBlank;
     }
-
-    file->banks_count_percussion = (percussive_banks != 0) ? percussive_banks : 1;
-    file->banks_percussive = (WOPNBank*)calloc(file->banks_count_percussion, sizeof(WOPNBank));
 
     if(percussive_banks == 0)
     {
@@ -289,6 +295,16 @@ WOPNFile *WOPN_LoadBankFromMem(void *mem, size_t length, int *error)
         count_melodic_banks = toUint16BE(head);
         count_percussive_banks = toUint16BE(head + 2);
         GO_FORWARD(5);
+
+        {/* Don't allocate what the file can't contain */
+            size_t banks = (size_t)count_melodic_banks + (size_t)count_percussive_banks;
+            size_t per_bank = (size_t)((version > 1) ? WOPN_INST_SIZE_V2 : WOPN_INST_SIZE_V1) * 128 + ((version >= 2) ? 34 : 0);
+            if(length / per_bank < banks)
+            {
+                SET_ERROR(WOPN_ERR_UNEXPECTED_ENDING);
+                return NULL;
+            }
+        }
 
         outFile = WOPN_Init(count_melodic_banks, count_percussive_banks);
         if(!outFile)
